@@ -14,7 +14,7 @@
 //        failures before / after / in the middle of a commit, item errors, short result vectors, lookup errors,
 //        admission and channel backpressure).  out: ev=<tokens> — linearised log judged by the Lean driver:
 //          I.call.idx.ch.u.m.p   item idx of call        B.call   call begins      L.call.n   results returned
-//          R.call.idx.kind.id.seq  result (kind 0 ok,1 reason,2 error)             E.call   call returned
+//          R.call.idx.kind.id.seq  result (kind 0 ok,1 reason,2 error,3 backpressured,4 channel busy,5 deadline = never answered)   E.call   call returned
 //          Q.req.ch.attempt  append request   M.req.u.m.p.id  its messages
 //          P.ch.u.m.p.id.seq  record persisted by the fake store     K.u.m  a lookup answered with an error
 package main
@@ -358,6 +358,24 @@ func c29fnv(b []byte) uint64 {
 	return h
 }
 
+// c29Auth is the Authorizer port: it runs during prepare (outside the writer lock), so its latency
+// opens the window in which new submissions meet a busy writer; it also refuses some sends.
+type c29Auth struct {
+	seed uint64
+	n    atomic.Int64
+}
+
+func (a *c29Auth) AuthorizeSend(_ context.Context, cmd channelappend.SendCommand) (channelappend.Decision, error) {
+	h := c29mix(a.seed^0xa57, uint64(a.n.Add(1)))
+	if h%3 == 0 {
+		time.Sleep(time.Duration(50+h>>8%200) * time.Microsecond)
+	}
+	if c29PayloadNum(cmd.Payload) == 4 && h>>20%2 == 0 {
+		return channelappend.Decision{Allowed: false, Reason: channelappend.ReasonNotAllowSend}, nil
+	}
+	return channelappend.Decision{Allowed: true, Reason: channelappend.ReasonSuccess}, nil
+}
+
 type c29IDs struct{ n atomic.Uint64 }
 
 func (a *c29IDs) Next() uint64 { return a.n.Add(1) + 1000 }
@@ -488,7 +506,7 @@ func c29Traffic(f []string) string {
 	}
 	log := &c29Log{}
 	port := &c29Port{log: log, seed: seed, failPct: fail, latUs: lat}
-	opts := channelappend.Options{LocalNodeID: 1, Appender: port, Idempotency: port, MessageID: &c29IDs{},
+	opts := channelappend.Options{LocalNodeID: 1, Appender: port, Idempotency: port, MessageID: &c29IDs{}, Authorizer: &c29Auth{seed: seed},
 		AuthorityShardCount: 2, AdvancePoolSize: 2, EffectPoolSize: 2, AdmissionCapacityPerShard: adm, ChannelBacklogHighWatermark: backlog}
 	if coalesce == 0 {
 		opts.InboxCoalesceWindow = -1
@@ -539,7 +557,7 @@ func c29Traffic(f []string) string {
 					}
 					hist = append(hist, it)
 					keys = append(keys, it)
-					items = append(items, channelappend.SendBatchItem{Context: context.Background(), Command: channelappend.SendCommand{
+					items = append(items, channelappend.SendBatchItem{Context: context.Background(), Deadline: time.Now().Add(20 * time.Second), Command: channelappend.SendCommand{
 						FromUID: c29UID(it.u), ClientMsgNo: c29Msg(it.m), ChannelID: "c" + strconv.Itoa(it.c), ChannelType: 2, Payload: c29Payload(it.p)}})
 				}
 				id := int(callNo.Add(1))
@@ -561,7 +579,7 @@ func c29Traffic(f []string) string {
 							results[i].Err = err
 						}
 					} else {
-						wctx, cancel := context.WithTimeout(context.Background(), 30*time.Second)
+						wctx, cancel := context.WithTimeout(context.Background(), 25*time.Second)
 						res, werr := fut.Wait(wctx)
 						cancel()
 						if werr != nil {
@@ -577,7 +595,9 @@ func c29Traffic(f []string) string {
 					switch {
 					case r.Err != nil:
 						kind, mid, seq = 2, 0, 0
-						if errors.Is(r.Err, channelappend.ErrBackpressured) {
+						if errors.Is(r.Err, context.DeadlineExceeded) {
+							kind = 5 // nothing in a scenario takes 20 s: an item that was never answered
+						} else if errors.Is(r.Err, channelappend.ErrBackpressured) {
 							kind = 3
 						} else if errors.Is(r.Err, channelappend.ErrChannelBusy) {
 							kind = 4
